@@ -73,7 +73,7 @@ theorem own_append {l : List OMsg} {i t : Nat} {x : OMsg}
   · subst hm; exact hx
 
 set_option maxHeartbeats 800000 in
-theorem invR_step (c0 : Cfg) (s s' : PSys) (e : Event) (hV : InvV c0 (vsys s)) (hI : InvR s)
+theorem invR_step (c0 : Cfg) (s s' : PSys) (e : Event) (hV : InvV (vsys s)) (hI : InvR s)
     (h : applyEvent s e = .ok s') : InvR s' := by
   cases e with
   | bump i t =>
@@ -319,9 +319,12 @@ theorem invR_step (c0 : Cfg) (s s' : PSys) (e : Event) (hV : InvV c0 (vsys s)) (
         exact ⟨this.1, by simp only; omega⟩
     · cases h
 
-theorem invR_reach (c0 : Cfg) (s : PSys) (h : ReachC c0 s) : InvR s := by
+theorem invR_reachR (s : PSys) (h : Reach s) : InvR s := by
   induction h with
   | init => exact invR_init
-  | step e hr _ hs ih => exact invR_step c0 _ _ e (invV_reach c0 _ hr) ih hs
+  | step e hr hs ih => exact invR_step ⟨[], []⟩ _ _ e (invV_reachR _ hr) ih hs
+
+theorem invR_reach (c0 : Cfg) (s : PSys) (h : ReachC c0 s) : InvR s :=
+  invR_reachR s (reach_of_reachC h)
 
 end RaftModel.P
